@@ -690,6 +690,16 @@ package generator
 //@   ensures [C07,C18] array-needs-items: t.Enum == nil && t.Ref == "" && len(t.Type) == 1 && t.Type[0] == "array" && t.Items == nil ==> result1 != nil
 //@   ensures [C03,C02] nullable-integer-is-pointer: t.Enum == nil && t.Ref == "" && len(t.Type) == 2 && result1 == nil ==> dyn(result0) == "*codegen.PointerType"
 
+// ---- an object's own properties are generated before it is handed on (generateStructType) ----
+// An object with `properties` next to `anyOf`/`allOf` still has its properties
+// generated first: a property that cannot be generated (unknown type, missing
+// $ref, empty enum) must fail the run (C18), and the composed type's branches are
+// merged with what the properties declared (C11).
+//@ func (*schemaGenerator).generateStructType@flow
+//@   props C18 C11
+//@   after-loop generateAnyOfType addStructField
+//@   after-loop generateAllOfType addStructField
+
 // ---- objects without properties become maps of their additionalProperties type (generateStructType) ----
 //@ func (*schemaGenerator).generateStructType@map-arm
 //@   props C03 C02
